@@ -96,7 +96,66 @@ func newWorld(sysCA *lib.CA) *world {
 		w.leaves[n+"-rogue-foreign"] = rogueCert(g, n+"-rogue-foreign", w.evil, "evil")
 		w.leaves[n+"-rogue-self"] = rogueCert(g, n+"-rogue-self", nil, "self")
 	}
+	// a look-alike foreign PKI: CAs with the SAME subject DN as the layout's intermediate / root (other keys),
+	// issuing leaves for other keys that copy subject AND serial number of the honest leaves
+	lookInter := lookalikeCA(w.inter.Cert)
+	lookRoot := lookalikeCA(w.root.Cert)
+	w.leaves["alice-lookalike"] = lookalikeLeaf(w.leaves["alice"], lookInter, "alice-lookalike")
+	w.leaves["bob-lookalike"] = lookalikeLeaf(w.leaves["bob"], lookInter, "bob-lookalike")
+	w.leaves["carol-lookalike"] = lookalikeLeaf(w.leaves["carol"], lookRoot, "carol-lookalike")
 	return w
+}
+
+type fakeCA struct {
+	cert   *x509.Certificate
+	signer crypto.Signer
+}
+
+// lookalikeCA: a self-signed CA with a fresh key whose subject DN (and serial) equal those of `like`
+func lookalikeCA(like *x509.Certificate) *fakeCA {
+	signer := lib.GetKeyPair("ecdsa256-lookalike-" + like.Subject.CommonName).Signer
+	tmpl := &x509.Certificate{
+		SerialNumber: like.SerialNumber, Subject: like.Subject,
+		NotBefore: time.Now().Add(-time.Hour), NotAfter: far(),
+		KeyUsage: x509.KeyUsageDigitalSignature | x509.KeyUsageCertSign, IsCA: true, BasicConstraintsValid: true,
+	}
+	der, err := x509.CreateCertificate(rand.Reader, tmpl, tmpl, signer.Public(), signer)
+	if err != nil {
+		panic(err)
+	}
+	c, err := x509.ParseCertificate(der)
+	if err != nil {
+		panic(err)
+	}
+	return &fakeCA{c, signer}
+}
+
+// lookalikeLeaf: a certificate for ANOTHER key, issued by the look-alike CA, copying subject, SANs and serial number of g
+func lookalikeLeaf(g *certFn, ca *fakeCA, name string) *certFn {
+	kp := lib.GetKeyPair("ecdsa256-" + name)
+	hc := g.leaf.Cert
+	tmpl := &x509.Certificate{
+		SerialNumber: hc.SerialNumber, Subject: hc.Subject,
+		NotBefore: time.Now().Add(-time.Hour), NotAfter: far(),
+		DNSNames: hc.DNSNames, EmailAddresses: hc.EmailAddresses, URIs: hc.URIs,
+		KeyUsage: x509.KeyUsageDigitalSignature,
+	}
+	der, err := x509.CreateCertificate(rand.Reader, tmpl, ca.cert, kp.Signer.Public(), ca.signer)
+	if err != nil {
+		panic(err)
+	}
+	c, err := x509.ParseCertificate(der)
+	if err != nil {
+		panic(err)
+	}
+	if c.Issuer.String() != hc.Issuer.String() || c.SerialNumber.Cmp(hc.SerialNumber) != 0 {
+		panic("look-alike certificate does not copy issuer DN and serial")
+	}
+	p := pem.EncodeToMemory(&pem.Block{Type: "CERTIFICATE", Bytes: der})
+	k := kp.Priv
+	k.KeyVal.Certificate = string(p)
+	return &certFn{name: name, leaf: lib.Leaf{Cert: c, Signer: kp.Signer, CertPEM: p, KeyPEM: kp.PrivPEM, Key: k},
+		under: "lookalike", cn: g.cn, orgs: g.orgs}
 }
 
 var rogueSerial int64 = 900000
@@ -282,8 +341,8 @@ func (w *world) chainOK(f *certFn, sc *scenario) bool {
 		return hasRoot
 	case "evil":
 		return sc.roots == "both"
-	case "self":
-		return false
+	case "self", "lookalike":
+		return false // never a layout root, whatever its names and serial numbers say
 	}
 	return false
 }
@@ -496,6 +555,14 @@ func makers() []maker {
 		{"rogue-cert-same-key", func(w *world, sc *scenario, st stepShape, r *lib.Rng) *item {
 			n := []string{"alice", "bob", "carol"}[r.Intn(3)] + []string{"-rogue-foreign", "-rogue-self"}[r.Intn(2)]
 			return w.certItem(st, sc, w.leaves[n], "rogue-cert-same-key")
+		}},
+		// certificate of a look-alike foreign PKI: issuer DN and serial number of an honest certificate, other keys
+		{"lookalike-cert", func(w *world, sc *scenario, st stepShape, r *lib.Rng) *item {
+			n := []string{"alice", "bob", "carol"}[r.Intn(3)]
+			if r.Chance(1, 2) { // often together with the honest certificate it imitates
+				sc.addItem(st, w.certItem(st, sc, w.leaves[n], "cert-"+n))
+			}
+			return w.certItem(st, sc, w.leaves[n+"-lookalike"], "lookalike-cert")
 		}},
 		// copy of a key-signed link whose keyid field is re-spelt in upper / mixed case, stored under the re-spelt prefix:
 		// the same functionary, never a second one
@@ -887,6 +954,34 @@ func witnessScenarios(w *world, r *lib.Rng) []*scenario {
 		for j, h := range hs {
 			sc.addItem(st, h)
 			sc.addItem(st, strayOf(st, h, (v/2+j)%3, []int{9, 12, 64}[(v+j)%3]))
+		}
+		out = append(out, sc)
+	}
+	// look-alike PKI (same issuer DN + serial as an honest certificate): honest certificate in an earlier step or in
+	// the same step; one LoadLayoutCertificates result serves the whole-layout call
+	for v := 0; v < 9; v++ {
+		who := []string{"alice", "bob", "carol"}[v%3]
+		sc := &scenario{klass: "lookalike-issuer-dn-and-serial", defined: map[int]bool{}, items: map[string][]item{}, roots: "root", interIn: "layout"}
+		if v%2 == 1 {
+			sc.interIn = "extra"
+		}
+		s1 := stepShape{name: "build", threshold: 1, ccs: []intoto.CertificateConstraint{ccAll()}}
+		s2 := stepShape{name: "test", threshold: 1, ccs: []intoto.CertificateConstraint{ccCN(w.leaves[who].cn)}}
+		switch v / 3 {
+		case 0: // honest in step 1, look-alike alone in step 2
+			sc.steps = []stepShape{s1, s2}
+			sc.addItem(s1, w.certItem(s1, sc, w.leaves[who], "cert-genuine"))
+			sc.addItem(s2, w.certItem(s2, sc, w.leaves[who+"-lookalike"], "lookalike-cert"))
+		case 1: // both in one step, threshold 2
+			s1.threshold = 2
+			sc.steps = []stepShape{s1}
+			sc.addItem(s1, w.certItem(s1, sc, w.leaves[who], "cert-genuine"))
+			sc.addItem(s1, w.certItem(s1, sc, w.leaves[who+"-lookalike"], "lookalike-cert"))
+		default: // honest in both steps, look-alike in step 2 as well: must not be in the counted set
+			sc.steps = []stepShape{s1, s2}
+			sc.addItem(s1, w.certItem(s1, sc, w.leaves[who], "cert-genuine"))
+			sc.addItem(s2, w.certItem(s2, sc, w.leaves[who], "cert-genuine"))
+			sc.addItem(s2, w.certItem(s2, sc, w.leaves[who+"-lookalike"], "lookalike-cert"))
 		}
 		out = append(out, sc)
 	}
@@ -1404,10 +1499,14 @@ func coqModel(w *world, in input, dir string) (string, string) {
 	for _, p := range in.Intermediates {
 		inter = append(inter, []byte(p))
 	}
-	rp, ip, err := intoto.LoadLayoutCertificates(in.Layout, inter)
-	if err == nil {
+	{
 		for _, st := range in.Layout.Steps {
 			for _, ck := range cks {
+				// fresh pools for every entry: each row is one isolated question to the library
+				rp, ip, err := intoto.LoadLayoutCertificates(in.Layout, inter)
+				if err != nil {
+					continue
+				}
 				if st.CheckCertConstraints(ck.key, in.Layout.RootCAIDs(), rp, ip) == nil {
 					ccrows = append(ccrows, "("+lib.CoqStr(st.Name)+", "+lib.CoqStr(ck.ck.id)+", "+lib.CoqStr(ck.ck.tag)+")")
 				}
